@@ -68,6 +68,9 @@ func callSiteName(c *ssa.CallCommon) string {
 		return c.Method.Name()
 	}
 	if callee := c.StaticCallee(); callee != nil {
+		if o := callee.Origin(); o != nil {
+			return o.Name() // an instantiated generic is named like its declaration
+		}
 		return callee.Name()
 	}
 	if mc, ok := c.Value.(*ssa.MakeClosure); ok {
@@ -126,6 +129,10 @@ func (f *frame) callClauses(in ssa.Instruction, kind string) []*Clause {
 	for _, c := range f.con.Calls {
 		if c.Kind == kind && fmt.Sprintf("%s#%d", c.CallName, c.CallOrd) == key {
 			out = append(out, c)
+			if f.e.attached == nil {
+				f.e.attached = map[*Clause]bool{}
+			}
+			f.e.attached[c] = true
 		}
 	}
 	return out
@@ -150,6 +157,19 @@ func (f *frame) callEnv(in ssa.Instruction, c *ssa.CallCommon, args []Val, h *He
 	}
 	if c.IsInvoke() {
 		env.vars["recv"] = TV{f.get(c.Value), c.Value.Type()}
+	}
+	// athead(e): the state at the head of the innermost enclosing loop iteration
+	var inner *loopInfo
+	for _, li := range f.loops {
+		// the loop whose head was passed most recently on the way here (exit paths of an iteration included)
+		if li.header.Dominates(in.Block()) && li.headHeap != nil && li.phiAtHead != nil {
+			if inner == nil || inner.header.Dominates(li.header) {
+				inner = li
+			}
+		}
+	}
+	if inner != nil {
+		env.headEnv = f.specEnv(inner.headHeap, inner.header, inner.phiAtHead)
 	}
 	return env
 }
